@@ -709,7 +709,11 @@ func c16Threshold(c *vrep.Ctx) {
 		l.Threshold = t
 		ls[i] = l
 	}
-	c.R.Rule = fmt.Sprintf("MultipleMatch never returns a match below the classifier's threshold: %d pool files x query kinds {exact, lightly edited (every 9th word replaced), heavily edited (every 4th), first half, two files concatenated, unrelated, two/three licenses each stretched by a block of 15/30/45%% foreign words (several weak candidates in one input)} x includeHeaders x thresholds %v (the last three set through the exported Threshold field on classifiers built with 0.5, 0.8, 0.9); every returned confidence must be >= threshold and <= 1; non-trivial = queries that returned at least one match", len(pool), ths)
+	adaptive, err := lc.New(0.5, lc.ArchiveBytes(buf.Bytes()))
+	if err != nil {
+		panic(err)
+	}
+	c.R.Rule = fmt.Sprintf("MultipleMatch never returns a match below the classifier's threshold: %d pool files x query kinds {exact, lightly edited (every 9th word replaced), heavily edited (every 4th), first half, two files concatenated, unrelated, two/three licenses each stretched by a block of 15/30/45%% foreign words (several weak candidates in one input)} x includeHeaders x thresholds %v (the last three set through the exported Threshold field on classifiers built with 0.5, 0.8, 0.9); every returned confidence must be >= threshold and <= 1; for one confidence c seen at threshold 0.5 the query is repeated at threshold c + 0.0025 (no round number); non-trivial = queries that returned at least one match", len(pool), ths)
 	body := func(r *vx.Run) {
 		fi := r.Choose(len(pool), "file")
 		kind := r.Choose(9, "kind")
@@ -764,6 +768,28 @@ func c16Threshold(c *vrep.Ctx) {
 		for _, m := range ms {
 			if !(m.Confidence >= ths[ti] && m.Confidence <= 1) {
 				msg = fmt.Sprintf("match %s has confidence %v, threshold is %v", m.Name, m.Confidence, ths[ti])
+			}
+		}
+		// thresholds that are no round numbers: just above each confidence seen at the lowest threshold
+		// (a quarter of a percent, so the two share their first two decimals most of the time)
+		if ti == 0 && msg == "" {
+			seen := map[float64]bool{}
+			for _, m := range ms {
+				if m.Confidence < 0.995 && !seen[m.Confidence] && len(seen) < 1 && kind != 4 && kind != 8 {
+					seen[m.Confidence] = true
+					t2 := m.Confidence + 0.0025
+					adaptive.Threshold = t2
+					var ms2 sc.Matches
+					p, d, _ := vsync.RunDefault(func() { ms2 = adaptive.MultipleMatch(text, hdr) })
+					if p != "" || d != "" {
+						msg = fmt.Sprintf("panic=%q deadlock=%q", p, d)
+					}
+					for _, m2 := range ms2 {
+						if !(m2.Confidence >= t2) {
+							msg = fmt.Sprintf("match %s has confidence %v, threshold is %v (set through the Threshold field)", m2.Name, m2.Confidence, t2)
+						}
+					}
+				}
 			}
 		}
 		r.Note = map[string]interface{}{"id": fmt.Sprintf("%s kind%d headers=%v T=%v(built %v)", pool[fi], kind, hdr, ths[ti], built[ti]), "msg": msg, "n": len(ms)}
